@@ -447,6 +447,12 @@ class TCPHiddenServiceEndpoint(object):
                 "'single_hop=' flag only makes sense for ephemeral onions"
             )
 
+        if ephemeral and version == 3 and isinstance(private_key, str) \
+           and ':' in private_key and 'V3' not in private_key:
+            raise ValueError(
+                "version=3 but private key isn't 'ED25519-V3'"
+            )
+
         self._reactor = reactor
         self._config = defer.maybeDeferred(lambda: config)
         self.public_port = public_port
@@ -927,6 +933,14 @@ class TCPHiddenServiceEndpointParser(object):
         if version not in (None, 2, 3):
             raise ValueError(
                 "Invalid version '{}'".format(version)
+            )
+
+        # refuse what the endpoint would refuse before any Tor is
+        # launched or contacted
+        if version == 3 and privateKey is not None \
+           and ':' in privateKey and 'V3' not in privateKey:
+            raise ValueError(
+                "version=3 but private key isn't 'ED25519-V3'"
             )
 
         ephemeral = None
